@@ -494,3 +494,49 @@ func clip(s string) string {
 	}
 	return s
 }
+
+// Slots returns pointers to every value slot of the tree (the root first), so a
+// mutator can replace any subtree in place.
+func Slots(root **Value) []**Value {
+	var out []**Value
+	var rec func(s **Value, depth int)
+	rec = func(s **Value, depth int) {
+		out = append(out, s)
+		v := *s
+		switch v.Kind {
+		case Arr:
+			for i := range v.Items {
+				rec(&v.Items[i], depth+1)
+			}
+		case Obj:
+			for i := range v.Members {
+				rec(&v.Members[i].Val, depth+1)
+			}
+		}
+	}
+	rec(root, 0)
+	return out
+}
+
+// Depth of a slot is not tracked; DepthOf computes the depth of target below root
+// (-1 if absent).
+func DepthOf(root, target *Value) int {
+	if root == target {
+		return 0
+	}
+	switch root.Kind {
+	case Arr:
+		for _, it := range root.Items {
+			if d := DepthOf(it, target); d >= 0 {
+				return d + 1
+			}
+		}
+	case Obj:
+		for _, m := range root.Members {
+			if d := DepthOf(m.Val, target); d >= 0 {
+				return d + 1
+			}
+		}
+	}
+	return -1
+}
